@@ -666,9 +666,11 @@ Proof.
       specialize (IH 0%nat (rev_append c buf) err (pos + List.length c)%nat line parens).
       destruct (string_loop r 0 (rev_append c buf) err (pos + List.length c) line parens) as [t st'].
       fin_good.
-    + specialize (IH k buf err (pos + List.length c)%nat line parens).
-      destruct (string_loop r k buf err (pos + List.length c) line parens) as [t st'].
-      fin_good.
+    + (* a character consumed by an escape: a line break among them counts (since /repo 914ba97) *)
+      pose proof (cnl_cons c r) as Hc'.
+      specialize (IH k buf err (pos + List.length c)%nat (if chr_is c "010" then line + 1 else line) parens).
+      destruct (string_loop r k buf err (pos + List.length c) (if chr_is c "010" then line + 1 else line) parens) as [t st'].
+      destruct (chr_is c "010"); fin_good.
 Qed.
 
 Lemma scan_token_eq : forall st,
@@ -734,7 +736,8 @@ Proof.
   unfold count_nl at 1. cbn [filter]. unfold is_nl. rewrite E. cbn [List.length]. lia.
 Qed.
 
-(* every token the scanner produces - error tokens included - carries a line of the source *)
+(* every token the scanner produces - error tokens included - carries a line of the source
+   (the EXACT line - 1 + newline bytes before the end of the token - is ScannerLineExact.token_line_exact) *)
 Theorem token_lines_in_range : forall src t,
   In t (scan_all src) -> 1 <= tline t <= 1 + N.of_nat (count_nl src).
 Proof.
